@@ -1,4 +1,5 @@
 """Sidecar contracts for btc_hd_wallet/__main__.py (C15 paranoia filter, C20 validators and main wiring)."""
+from . import summaries as _SUM_ALWAYS      # noqa: F401,E402  (summaries installed independent of import order)
 import argparse
 import z3
 from pyvc import logic as L
